@@ -45,8 +45,8 @@ RULES = {
            "distinct (event kind, algorithm, input derivation, outcome) keys",
 }
 
-PROPERTIES_WIP = ["C16", "C17"]
-MANIFEST_WIP = {
+PROPERTIES = ["C16", "C17"]
+MANIFEST = {
     "C16": dict(category="exploration",
                 technique="TLA+ model K1Backends (signature class lattice + each backend's acceptance pipeline) checked by TLC over all "
                           "classes; the TLC-generated class table is realised with concrete witnesses on BOTH real secp256k1 backends "
